@@ -56,6 +56,16 @@ Proof.
 Qed.
 Print Assumptions C01_bounded_reader_is_source.
 
+(* readers that cannot look ahead (Ensure always succeeds: the shape of StreamReader and
+   FdReader): the round trip holds over them as well *)
+Theorem C01_roundtrip_lazy_ensure : forall t v rest,
+  wf t = true -> has_type t v = true -> dec t lazy_ops (spec_enc t v ++ rest) = Ok v rest.
+Proof.
+  intros t v rest Hw Hv. apply dec_lazy_reader.
+  apply dec_from_payload; [exact Hv|apply decp_payload; assumption].
+Qed.
+Print Assumptions C01_roundtrip_lazy_ensure.
+
 (* Finding K1: without prefix-disjointness (wf) the round trip is false:
    Optional<Optional<uint8_t>> holding an empty inner value reads back as an
    empty outer value. *)
